@@ -77,6 +77,46 @@ def run(res, tier):
                    message='%s changes the node payload but a path reaches the function exit without NotifySubscribersThatNodeChanged(*this, …): subscribers keep the stale payload' % f.q)
     if nw < 1:
         raise AnalysisBroken('no writer of DataNode::_data found outside constructors')
+    # the "old payload" handed to the notification is read from _data BEFORE _data is overwritten (NodeChanged decides matched-before from it)
+    f = fx.fn1(DN + '::SetData')
+    ws = field_writes(f, '_data')
+    nots = P.calls(f, r'::NotifySubscribersThatNodeChanged$')
+    okc = bool(ws) and bool(nots)
+    howc = None
+    for c in nots:
+        if len(c.args()) < 2:
+            okc = False
+            continue
+        old = A.strip_casts(c.args()[1])
+        if old['k'] != 'DeclRefExpr' or 'd' not in old:
+            okc = False
+            continue
+        caps = []      # statements that copy _data into the local
+        for n in f.walk():
+            rhs = None
+            if n['k'] == 'VarDecl' and n.get('d') == old['d'] and n['ch']:
+                rhs = n['ch'][0]
+            elif n['k'] == 'CXXOperatorCallExpr' and (n.get('q') or '').endswith('::operator=') and len(n['ch']) >= 3 and A.strip_casts(n['ch'][1]).get('d') == old['d']:
+                rhs = n['ch'][2]
+            elif n['k'] == 'BinaryOperator' and n.get('op') == '=' and A.strip_casts(n['ch'][0]).get('d') == old['d']:
+                rhs = n['ch'][1]
+            if rhs is not None and any(x['k'] == 'MemberExpr' and x.get('n') == '_data' and A.is_this_member(x) for x in rhs.walk()):
+                caps.append(n)
+        if not caps:
+            okc = False
+            howc = 'the old-payload argument `%s` is never loaded from _data' % old.text()
+            continue
+        for w in ws:
+            wp = P.pos_of(f, w)
+            for cp in caps:
+                # the capture must not be reachable from the overwrite
+                cpp = P.pos_of(f, cp)
+                if wp is not None and cpp is not None and ((wp[0] == cpp[0] and wp[1] < cpp[1]) or C.can_reach(f, wp, set([cpp]))):
+                    okc = False
+                    howc = '`%s` is loaded from _data at line %s, after _data was overwritten at line %s' % (old.text(), cp.get('l'), w.get('l'))
+    res.ob('NOTIFY-PAIR', f.where(), 'SetData captures the old payload from _data before overwriting it and passes that capture to the notification', okc, how=howc or 'capture precedes the overwrite', function=f.q,
+           key='NOTIFY-PAIR|%s|old-payload' % f.q,
+           message='DataNode::SetData: %s: NodeChanged computes "matched before" from the new payload, so a node that leaves a filtered subscription is never reported as removed' % (howc or 'old payload not captured'))
     # outside DataNode nobody writes _data
     ext = []
     for f in fx.funcs.values():
@@ -167,6 +207,36 @@ def run(res, tier):
                            % (f.q, m, c.args()[0].text(40), '; '.join(why) if why and not good else 'a path skips the matching marks traversal'))
     if n_sub < 2:
         raise AnalysisBroken('SUBSCRIBE-PAIR: only %d subscription-table mutations found' % n_sub)
+    # the per-depth entries table is selected with the depth of the very string that is then looked up in it
+    n_key = 0
+    for f in sorted(srs, key=lambda f: f.line):
+        for c in f.walk():
+            if c['k'] != 'CXXMemberCallExpr' or (c.get('q') or '').split('::')[-1] not in ('Get', 'ContainsKey', 'GetOrPut', 'Put', 'Remove') or not c.args() or c.receiver() is None:
+                continue
+            sub = [x for x in c.receiver().walk() if x['k'] in ('ArraySubscriptExpr', 'CXXOperatorCallExpr') and any((y.get('q') or '').endswith('PathMatcher::GetEntries') for y in x.walk() if y.is_call())]
+            if not sub:
+                continue
+            idx = sub[0]['ch'][-1]
+            keyvars = set(x['d'] for x in c.args()[0].walk() if x['k'] == 'DeclRefExpr' and 'd' in x)
+            # the index expression, through one local, must be GetPathDepth(<expr over the same variable>)
+            e = A.strip_casts(idx)
+            if e['k'] == 'DeclRefExpr' and 'd' in e:
+                dd = e['d']
+                for v in f.walk():
+                    if v['k'] == 'VarDecl' and v.get('d') == dd and v['ch']:
+                        e = A.strip_casts(v['ch'][0])
+            gpd = [y for y in e.walk() if y.is_call() and (y.get('q') or '') == 'muscle::GetPathDepth']
+            if not gpd:
+                continue
+            n_key += 1
+            dvars = set(x['d'] for x in gpd[0].walk() if x['k'] == 'DeclRefExpr' and 'd' in x)
+            okk = bool(keyvars & dvars)
+            res.ob('SUBSCRIBE-PAIR', f.where(c), 'lookup of `%s` in GetEntries()[depth] uses the depth of the same string' % c.args()[0].text(30), okk, how='depth = %s' % gpd[0].text(50), function=f.q,
+                   key='SUBSCRIBE-PAIR|%s|same-key' % f.q,
+                   message='%s looks `%s` up in the entries table for depth %s: a different string, so an existing subscription is not found and is registered a second time '
+                           '(no filter diff is sent, the marks are counted twice)' % (f.q, c.args()[0].text(30), gpd[0].text(50)))
+    if n_key < 1:
+        raise AnalysisBroken('SUBSCRIBE-PAIR: the existing-subscription lookup (GetEntries()[GetPathDepth(p)].Get(p)) was not found')
     f = fx.fn1(SRS + '::NodeCreated')
     ok = False
     for c in f.walk():
@@ -195,6 +265,21 @@ def run(res, tier):
     rec = [c for c in P.calls(f, r'::NodeChangedAux$')]
     push = P.calls(f, r'::PushSubscriptionMessages$')
     ok2 = bool(rec) and all(P.must_precede(f, push, r) for r in rec)
+    # path form: once `pending->HasName(path, B_MESSAGE_TYPE)` has evaluated to true, the removal entry cannot be appended to the same pending Message without a flush in between
+    # (an extra conjunct after the HasName test opens exactly such a path)
+    pushpts = set(p for p in (P.pos_of(f, c) for c in push) if p)
+    for u in rem_updates:
+        up = P.pos_of(f, u)
+        for blk in f.blocks.values():
+            if blk.cond is None or blk.cond not in f.nodes or len(blk.succ) != 2:
+                continue
+            cn, pol = P.strip_not(f.nodes[blk.cond])
+            if cn.is_call() and (cn.get('q') or '') == 'muscle::Message::HasName' and cn.args() and len(u.args()) > 1 and P_canon(cn.args()[0]) == P_canon(u.args()[1]):
+                s_true = blk.succ[0 if pol else 1]
+                if s_true is not None and s_true >= 0 and up is not None and (s_true == up[0] and not any(p[0] == s_true and p[1] < up[1] for p in pushpts)
+                                                                               or C.can_reach(f, (s_true, -1), set([up]), avoid_points=pushpts)):
+                    ok = False
+                    how = 'the removal entry at line %s is reachable from the true edge of %s (line %s) without PushSubscriptionMessages()' % (u.get('l'), cn.text(50), cn.get('l'))
     res.ob('FLUSH-ORDER', f.where(), 'NodeChangedAux flushes the pending update before queuing a removal for a path it already carries as a set', ok and ok2, how=how, function=f.q,
            key='FLUSH-ORDER|%s|remove-after-set' % f.q,
            message='NodeChangedAux can put a removal and a set of the same path into one update Message; clients apply removals first, so the node reappears in the mirror')
